@@ -43,19 +43,19 @@ type MedianDiag struct {
 
 var (
 	// README: first 1/32 of total power x6, next 1/16 x4, next 1/8 x2, next 1/4 x1.1, rest x1.
-	segWidthDen = []int64{32, 16, 8, 4}
-	segMult     = []*big.Rat{big.NewRat(6, 1), big.NewRat(4, 1), big.NewRat(2, 1), big.NewRat(11, 10)}
-	restMult    = big.NewRat(1, 1)
+	medSegWidthDen = []int64{32, 16, 8, 4}
+	medSegMult     = []*big.Rat{big.NewRat(6, 1), big.NewRat(4, 1), big.NewRat(2, 1), big.NewRat(11, 10)}
+	medRestMult    = big.NewRat(1, 1)
 )
 
-type point struct {
+type medPoint struct {
 	price  uint64
 	weight *big.Rat
 }
 
-// orderAvailable filters AVAILABLE entries and orders them: timestamp descending, then power
+// medOrderAvailable filters AVAILABLE entries and orders them: timestamp descending, then power
 // descending; entries equal in both keep their input order.
-func orderAvailable(infos []PriceInfo) []PriceInfo {
+func medOrderAvailable(infos []PriceInfo) []PriceInfo {
 	var av []PriceInfo
 	for _, in := range infos {
 		if in.Status == SigAvailable {
@@ -88,15 +88,15 @@ func medianOrdered(av []PriceInfo, diag *MedianDiag) (uint64, bool) {
 	}
 	var segs []seg
 	lo := new(big.Rat)
-	for i, d := range segWidthDen {
+	for i, d := range medSegWidthDen {
 		w := new(big.Rat).Quo(T, new(big.Rat).SetInt64(d))
 		hi := new(big.Rat).Add(lo, w)
-		segs = append(segs, seg{lo, hi, segMult[i]})
+		segs = append(segs, seg{lo, hi, medSegMult[i]})
 		lo = hi
 	}
-	segs = append(segs, seg{lo, T, restMult})
+	segs = append(segs, seg{lo, T, medRestMult})
 
-	pts := make([]point, 0, len(av))
+	pts := make([]medPoint, 0, len(av))
 	a := new(big.Rat)
 	for _, in := range av {
 		b := new(big.Rat).Add(a, new(big.Rat).SetInt(in.Power))
@@ -124,7 +124,7 @@ func medianOrdered(av []PriceInfo, diag *MedianDiag) (uint64, bool) {
 				}
 			}
 		}
-		pts = append(pts, point{in.Price, w})
+		pts = append(pts, medPoint{in.Price, w})
 		a = b
 	}
 	// weighted median: ascending price, first price whose cumulative weight reaches half of the total
@@ -155,7 +155,7 @@ func medianOrdered(av []PriceInfo, diag *MedianDiag) (uint64, bool) {
 // WeightedMedian is the README procedure; entries equal in (timestamp, power) keep input order.
 // ok=false when there is no AVAILABLE power to take a median of.
 func WeightedMedian(infos []PriceInfo) (price uint64, ok bool, diag MedianDiag) {
-	av := orderAvailable(infos)
+	av := medOrderAvailable(infos)
 	diag.Available = len(av)
 	for i := 1; i < len(av); i++ {
 		if av[i].Timestamp == av[i-1].Timestamp && av[i].Power.Cmp(av[i-1].Power) == 0 {
@@ -175,7 +175,7 @@ func WeightedMedian(infos []PriceInfo) (price uint64, ok bool, diag MedianDiag) 
 // README leaves open (entries equal in both timestamp and power), at most limit orders.
 // complete=false when the enumeration was cut.
 func AdmissibleMedians(infos []PriceInfo, limit int) (set map[uint64]bool, complete bool) {
-	av := orderAvailable(infos)
+	av := medOrderAvailable(infos)
 	set = map[uint64]bool{}
 	// groups of full ties
 	type grp struct{ from, to int }
@@ -210,20 +210,20 @@ func AdmissibleMedians(infos []PriceInfo, limit int) (set map[uint64]bool, compl
 			return
 		}
 		sub := av[groups[g].from:groups[g].to]
-		permute(sub, 0, func() { rec(g + 1) })
+		medPermute(sub, 0, func() { rec(g + 1) })
 	}
 	rec(0)
 	return
 }
 
-func permute(xs []PriceInfo, k int, visit func()) {
+func medPermute(xs []PriceInfo, k int, visit func()) {
 	if k == len(xs) {
 		visit()
 		return
 	}
 	for i := k; i < len(xs); i++ {
 		xs[k], xs[i] = xs[i], xs[k]
-		permute(xs, k+1, visit)
+		medPermute(xs, k+1, visit)
 		xs[k], xs[i] = xs[i], xs[k]
 	}
 }
